@@ -7,16 +7,6 @@
 #![allow(clippy::all)]
 #![allow(dead_code)]
 
-mod big;
-mod capture;
-mod engine;
-mod galloc;
-mod groups;
-mod loopdrv;
-mod loopmodel;
-mod props;
-mod trace;
-mod util;
 
 use std::{
     collections::BTreeMap,
@@ -25,11 +15,13 @@ use std::{
     time::{Duration, Instant},
 };
 
-use engine::*;
+use vcheck::{engine::{self, *}, galloc, groups, loopdrv, props};
 use serde_json::{json, Value};
 
 #[global_allocator]
 static GLOBAL: galloc::Outer = galloc::Outer::new();
+
+mod fuzzrun;
 
 fn usage() -> ! {
     eprintln!("usage: vcheck run <ID> [--tier quick|thorough] | vcheck replay <ID> <file> | vcheck list");
@@ -78,6 +70,24 @@ fn main() {
             let file = args.get(2).cloned().unwrap_or_else(|| usage());
             std::process::exit(run_replay(&id, Path::new(&file)));
         }
+        "fuzz-decode" => {
+            // vcheck fuzz-decode <ID> <group> <input file> <out replay file>
+            let id = args.get(1).cloned().unwrap_or_else(|| usage());
+            let group = args.get(2).cloned().unwrap_or_else(|| usage());
+            let data = std::fs::read(args.get(3).unwrap_or_else(|| usage())).expect("read input");
+            match vcheck::fuzz::decode(&id, &group, &data) {
+                Some(case) => {
+                    let rf = ReplayFile { property: id.clone(), group, signature: "fuzz".into(), message: "decoded from a libFuzzer input".into(), case, kind: "found".into() };
+                    let out = args.get(4).cloned().unwrap_or_else(|| usage());
+                    std::fs::write(&out, serde_json::to_string_pretty(&rf).unwrap()).expect("write replay");
+                    println!("{out}");
+                }
+                None => {
+                    eprintln!("input does not generate a case");
+                    std::process::exit(2);
+                }
+            }
+        }
         "twin-demo" => {
             use proptest::strategy::{Strategy, ValueTree};
             install_panic_hook();
@@ -93,6 +103,23 @@ fn main() {
                 let run = props::twin::run_in_process(&spec, &cfg).unwrap();
                 println!("==== {action} (panic: {:?}, {} invocations)\n{}", run.panic, run.invocations.len(), run.stdout);
             }
+        }
+        "fuzz" => {
+            // vcheck fuzz <ID> [--seed N]: only the coverage-guided campaigns.
+            let id = args.get(1).cloned().unwrap_or_else(|| usage());
+            let seed = arg_value(&args, "--seed").and_then(|s| s.parse().ok()).unwrap_or(1);
+            let exe = std::env::current_exe().expect("current_exe");
+            let phase = fuzzrun::run(&id, seed, &exe);
+            for s in &phase.stats {
+                println!("{s}");
+            }
+            for v in &phase.violations {
+                println!("violation: group={} signature={}\n  {}\n  case: {}", v.group, v.signature, v.message, v.case);
+            }
+            for m in &phase.infra {
+                println!("inconclusive: {m}");
+            }
+            std::process::exit(if !phase.violations.is_empty() { 1 } else if !phase.infra.is_empty() { 2 } else { 0 });
         }
         "shard" => {
             let id = args.get(1).cloned().unwrap_or_else(|| usage());
@@ -409,6 +436,17 @@ fn run_parent(id: &str, tier: Tier, seed: i64) -> i32 {
         violations.extend(r.violations.iter().cloned());
     }
 
+    // Coverage-guided campaigns over the same generators and oracles.
+    let mut fuzz_stats: Vec<Value> = Vec::new();
+    let mut fuzz_executions = 0u64;
+    if tier == Tier::Thorough && violations.is_empty() {
+        let phase = fuzzrun::run(id, seed, &exe);
+        violations.extend(phase.violations);
+        infra.extend(phase.infra);
+        fuzz_stats = phase.stats;
+        fuzz_executions = phase.executions;
+    }
+
     // Crash signatures can be known findings too.
     let known = load_known_findings();
     let is_known = |sig: &str| {
@@ -553,6 +591,8 @@ fn run_parent(id: &str, tier: Tier, seed: i64) -> i32 {
             "inconclusive_cases": groups.values().map(|g| g.inconclusive).sum::<u64>(),
             "infrastructure_notes": infra,
             "shards": nshards,
+            "fuzz_executions": fuzz_executions,
+            "fuzz_campaigns": fuzz_stats,
         },
         "assumptions": prop.assumptions,
         "wall_s": start.elapsed().as_secs_f64(),
